@@ -40,8 +40,8 @@ RULE = (
     "distinct_nontrivial = distinct (machine, engine, state) crash points + distinct corruptions"
 )
 BOUNDS = {
-    "quick": "TREE(N<=3) + ACTOR and ACTORF machines; corruptions of 3 base snapshots",
-    "thorough": "TREE(N<=4) + ACTOR and ACTORF machines; corruptions of 6 base snapshots",
+    "quick": "TREE(N<=3) + a two-history-owner tree + ACTOR and ACTORF machines; corruptions of 3 base snapshots",
+    "thorough": "TREE(N<=4) + a two-history-owner tree + ACTOR and ACTORF machines; corruptions of 6 base snapshots",
 }
 ASSUMPTIONS = [
     "pending timers and in-flight services are excluded (documented); machines here have none",
@@ -358,6 +358,9 @@ def run_corruptions(base_hists: List[List[str]]) -> Dict[str, Any]:
 
 def units(tier: str) -> List[Any]:
     us: List[Any] = [("tree", t) for t in F.trees_upto(3 if tier == "quick" else 4)]
+    # two history owners (deep and shallow) side by side: what is remembered for one must not leak into the other on restore
+    A_ = ("A", ())
+    us.append(("tree", ("C", (("C", (("Hd", ()), A_, ("C", (A_, A_)))), ("C", (("Hs", ()), A_, A_))))))
     us.append(("actor", None))
     us.append(("actorf", None))
     bases = [["GO", "N", "BACK", "SPAWN"], ["SPAWN", "SPAWN2", "PING"], ["GO", "N"]]
